@@ -154,7 +154,56 @@ def run_tool(tool, argv, inj=None, stdin_text=None, env=None):
 
 
 # -- (1) pre-write failures --------------------------------------------------
+def tilde_output_cases(res, tmp):
+    """yaml-merge --output never replaces an existing file - however the
+    path to it is spelled, e.g. with a leading ~ that only the tool (not the
+    shell) would expand."""
+    home = tempfile.mkdtemp(dir=tmp)
+    cwd = tempfile.mkdtemp(dir=tmp)
+    keep = b"keep: me\n"
+    old_home, old_cwd = os.environ.get("HOME"), os.getcwd()
+    try:
+        os.environ["HOME"] = home
+        os.chdir(cwd)
+        for name in ("a.yaml", "b.yaml"):
+            open(os.path.join(cwd, name), "w").write("%s: 1\n" % name[0])
+        for spelling in ("~/out.yaml", "~/./out.yaml",
+                         os.path.join(home, "out.yaml"),
+                         os.path.join(home, ".", "out.yaml")):
+            target = os.path.join(home, "out.yaml")
+            open(target, "wb").write(keep)
+            res.evaluations += 1
+            case = {"tool": "yaml-merge", "output_spelling": spelling
+                    if spelling.startswith("~") else "<absolute>",
+                    "tilde-output": True}
+            try:
+                out = run_tool("yaml-merge",
+                               ["-S", "--output=" + spelling, "a.yaml",
+                                "b.yaml"], Injector())
+            except CaseTimeout:
+                res.fail({"clause": "terminates", "tool": "yaml-merge"},
+                         case, "")
+                continue
+            if open(target, "rb").read() != keep:
+                res.fail({"clause": "output-never-replaces-an-existing-file",
+                          "tool": "yaml-merge",
+                          "spelling": "tilde" if spelling.startswith("~")
+                          else "absolute"}, case,
+                         "exit %r; the existing file was replaced" % out.code)
+                continue
+            res.nontrivial()
+            res.label("existing-output-kept:%s" % (
+                "tilde" if spelling.startswith("~") else "absolute"))
+    finally:
+        os.chdir(old_cwd)
+        if old_home is None:
+            os.environ.pop("HOME", None)
+        else:
+            os.environ["HOME"] = old_home
+
+
 def prewrite_cases(res, tmp):
+    tilde_output_cases(res, tmp)
     bad = os.path.join(tmp, "bad.yaml")
     cases = []
     for di, doc in enumerate(DOCS[:4]):
